@@ -30,7 +30,7 @@ TAP = {'events': []}
 
 
 def gates(tier):
-    return {'numbered_only_cases': 300, 'constant_shadowing_cases': 300, 'dependent_chain_cases': 100, 'grader_calls': 5000, 'expected_correct': 1200, 'expected_incorrect': 1500,
+    return {'identity_law_calls': 3000, 'numbered_only_cases': 300, 'constant_shadowing_cases': 300, 'dependent_chain_cases': 100, 'grader_calls': 5000, 'expected_correct': 1200, 'expected_incorrect': 1500,
             'partial_failure_patterns': 600, 'boundary_exact_cases': 200, 'tap_events': 15000,
             'tap_percent_events': 3000, 'array_cases': 800, 'inf_cases': 40, 'rewrite_cases': 300,
             'relative_operand_discriminating': 40, 'norm_discriminating': 24}
@@ -353,6 +353,64 @@ def run_rewrites(ctx):
                  rng.randint(0, 2), rng.choice([1, 0.5]), {'family': 'rewrite'}, exact=True)
 
 
+def run_identity_law(ctx):
+    """
+    The consequence stated in the property, under REAL samplers of every kind (the sampled values are not known to the
+    harness): an algebraically identical rewriting of the answer always earns its full credit; a formula that misses
+    by far more than the tolerance at every sample never earns any.
+    """
+    import mitxgraders as M
+    rng = ctx.rng
+    for i in range(ctx.n(1600, 30000)):
+        ctx.seed_case('identity', i)
+        kind = rng.choice(['formula', 'formula', 'matrix', 'numerical'])
+        samples = rng.randint(1, 6)
+        tol = rng.choice(['0.01%', 1e-6, '1%', '0.5%'])
+        credit = rng.choice([1, 1, 0.5])
+        xs = rng.choice([M.RealInterval([2, 3]), M.IntegerRange([2, 9]), M.DiscreteSet((2.5, 3.5, 4.25)), [2, 4], M.RealInterval([-3, -2])])
+        zs = rng.choice([M.ComplexRectangle(re=[1, 2], im=[1, 2]), M.ComplexSector(modulus=[1, 2], argument=[0.2, 1.2])])
+        cfg = dict(samples=samples, tolerance=tol, failable_evals=rng.randint(0, max(0, samples - 1)) if samples > 1 else 0)
+        if kind == 'formula':
+            cfg.update(variables=['x', 'z', 'n', 'd'], numbered_vars=['a'], user_functions={'rf': M.RandomFunction(center=5, amplitude=2)},
+                       sample_from={'x': xs, 'z': zs, 'n': M.IntegerRange([2, 5]), 'a': M.RealInterval([1, 2]), 'd': M.DependentSampler(formula='2*x')})
+            ans, same, far = rng.choice([
+                ('x^2+z*n', 'z*n+x^2', 'x^2+z*n+100'), ('rf(x)+a_{1}', 'a_{1}+rf(x)', 'rf(x)+a_{1}+100'), ('d+x', '3*x', 'd+x+100'),
+                ('abs(z)^2+x', 're(z)^2+im(z)^2+x', 'abs(z)^2+x+100'), ('a_{1}*a_{2}+n', 'n+a_{2}*a_{1}', 'a_{1}*a_{2}+n+100'),
+                ('rf(x)*rf(x)', 'rf(x)^2', 'rf(x)^2+100'), ('conj(z)*z', 'abs(z)^2', 'conj(z)*z+100*i'), ('x^n', 'x^(n-1)*x', 'x^n+x^n+100')])
+            cls = M.FormulaGrader
+        elif kind == 'matrix':
+            cfg.update(variables=['x', 'v', 'w', 'A'], max_array_dim=2,
+                       sample_from={'x': xs, 'v': M.RealVectors(shape=3), 'w': M.ComplexVectors(shape=3), 'A': rng.choice([M.RealMatrices(shape=[3, 3]), M.SquareMatrices(dimension=3, symmetry='symmetric')])})
+            ans, same, far = rng.choice([
+                ('A*v', 'A*v+0*v', 'A*v+[100,100,100]'), ('v*v+x', 'norm(v)^2+x', 'v*v+x+100'), ('trans(A)*v', 'v*A', 'trans(A)*v+[100,0,0]'),
+                ('x*A*v', 'A*(x*v)', 'x*A*v+[0,100,0]'), ('w*ctrans(w)+x', 'x+norm(w)^2', 'w*ctrans(w)+x+100'), ('A^2*v', 'A*(A*v)', 'A^2*v+[100,100,100]')])
+            cls = M.MatrixGrader
+        else:
+            cfg = dict(tolerance=tol)
+            ans, same, far = rng.choice([('2^0.5*3', '3*sqrt(2)', '2^0.5*3+100'), ('e^2+pi', 'pi+exp(2)', 'e^2+pi+100'), ('1/3+1/6', '0.5', '100')])
+            cls = M.NumericalGrader
+        try:
+            g = cls(answers={'expect': ans, 'grade_decimal': credit}, **cfg)
+        except Exception as exc:  # noqa
+            ctx.inconclusive_because('harness: identity-law configuration rejected: %r' % (exc,))
+            return
+        for which, sub in (('identical', same), ('far', far), ('identical', ans)):
+            out = lib.call(ctx, g, None, sub)
+            ctx.ev()
+            ctx.count('grader_calls')
+            ctx.count('identity_law_calls')
+            wit = {'family': 'identity_law', 'grader': cls.__name__, 'answer': ans, 'submission': sub, 'kind': which, 'samples': samples, 'tolerance': tol,
+                   'failable_evals': cfg.get('failable_evals', 0), 'credit': credit, 'samplers': {k_: repr(v_)[:60] for k_, v_ in cfg.get('sample_from', {}).items()},
+                   'outcome': out.brief()}
+            ctx.nontrivial(['identity', cls.__name__, ans, sub, samples, tol])
+            if not out.returned:
+                ctx.violation('C04:raises:' + cls.__name__, 'grading raised %r' % (out.exc,), wit)
+            elif which == 'identical' and (abs(out.value['grade_decimal'] - credit) > 1e-12):
+                ctx.violation('C04:rejected_although_within:identical_rewriting:' + cls.__name__, 'an identical rewriting earned %r, the answer is worth %r' % (out.value, credit), wit)
+            elif which == 'far' and out.value['grade_decimal'] != 0:
+                ctx.violation('C04:accepted_although_outside:far_everywhere:' + cls.__name__, 'a formula off by 100 at every sample earned %r' % (out.value,), wit)
+
+
 def run_boundaries(ctx):
     """Exact integer / dyadic boundary cases: <= versus <, and 'relative to which operand'."""
     cases = [
@@ -435,6 +493,7 @@ def run(ctx):
     run_delta_eps(ctx)
     run_branches(ctx)
     run_rewrites(ctx)
+    run_identity_law(ctx)
     if ctx.shard % 4 == 0:
         run_boundaries(ctx)
         run_inf(ctx)
